@@ -19,6 +19,11 @@ Model: `RedisVerif.Shard` (M2, `Model/Replica.lean`) = `ShardReplicaState` plus 
   values: `no_repeat_across_restart`).
 * `lww_write_supersedes`: such a write wins the merge against the observed value on every replica,
   whichever way round the merge is taken and whatever the observed value's CRDT kind.
+* `node_recovery_dominates` / `node_recovery_write_wins`: the same at the level of a whole node
+  (`ShardedNode` = all shards of a `ReplicatedShardedState`): after
+  `apply_recovered_state(checkpoint, deltas)` every shard's subsequent writes are stamped above
+  EVERY recovered value routed to it, tombstones included
+  (`node_recovery_skip_tombstones_counterexample`: a recovery loop that skips tombstones breaks it).
 * `recovered_without_clock_update_counterexample`: the pinned commit (ApplyRecoveredState did
   not advance the clock) violates the property — repaired by a `fix:` commit.
 -/
@@ -526,6 +531,164 @@ example :
        .recovered 9 (RV.withValue [5] ⟨40, 1⟩)]
     s.Inv ∧ effective s (.hdelete 8 [2]) = true ∧ effective s (.delete 7) = true
       ∧ s.clock.time = 41 := by
+  decide
+
+open ShardedNode
+
+/-! ## node level: recovery of a whole `ReplicatedShardedState` -/
+
+/-- the recovery messages shard `s` receives: its checkpoint entries, then its deltas -/
+def shardRecoveryOps (route : Nat → Nat) (s : Nat) (ckpt deltas : List (Nat × RV)) : List Op :=
+  (ckpt.filter (fun p => route p.1 = s)).map (fun p => Op.recovered p.1 p.2) ++
+  (deltas.filter (fun p => route p.1 = s)).map (fun p => Op.remote p.1 p.2)
+
+theorem getElem_onShard (nd : ShardedNode) (j s : Nat) (f : Shard → Shard) :
+    (nd.onShard j f)[s]? = if j = s then (nd[s]?).map f else nd[s]? := by
+  unfold onShard
+  by_cases hj : j = s
+  · subst hj
+    cases hg : nd[j]? with
+    | none => simp [hg]
+    | some sh =>
+      have hlt : j < nd.length := (List.getElem?_eq_some_iff.mp hg).1
+      simp [hlt]
+  · cases hg : nd[j]? with
+    | none => simp [hj]
+    | some sh => simp [hj, List.getElem?_set_ne hj]
+
+/-- routing a list of per-key messages through `onShard` = each shard folds its own messages -/
+theorem fold_onShard (route : Nat → Nat) (g : Nat × RV → Shard → Shard) (s : Nat)
+    (l : List (Nat × RV)) : ∀ nd : ShardedNode,
+    (l.foldl (fun nd p => nd.onShard (route p.1) (g p)) nd)[s]? =
+      (nd[s]?).map (fun sh => (l.filter (fun p => route p.1 = s)).foldl (fun sh p => g p sh) sh) := by
+  induction l with
+  | nil => intro nd; simp
+  | cons p l ih =>
+    intro nd
+    rw [List.foldl_cons, ih, getElem_onShard]
+    by_cases hp : route p.1 = s
+    · simp only [hp, if_true, List.filter_cons, decide_true, List.foldl_cons, Option.map_map]
+      rfl
+    · simp [hp, List.filter_cons]
+
+theorem run_map_recovered (l : List (Nat × RV)) (sh : Shard) :
+    l.foldl (fun sh p => sh.applyRecovered p.1 p.2) sh = run sh (l.map (fun p => Op.recovered p.1 p.2)) := by
+  induction l generalizing sh with
+  | nil => rfl
+  | cons p l ih => simp only [List.foldl_cons, List.map_cons, run, step]; exact ih _
+
+theorem run_map_remote (l : List (Nat × RV)) (sh : Shard) :
+    l.foldl (fun sh p => sh.applyRemote p.1 p.2) sh = run sh (l.map (fun p => Op.remote p.1 p.2)) := by
+  induction l generalizing sh with
+  | nil => rfl
+  | cons p l ih => simp only [List.foldl_cons, List.map_cons, run, step]; exact ih _
+
+/-- after `apply_recovered_state` every shard has run exactly its own recovery messages -/
+theorem recoverNode_shard (route : Nat → Nat) (nd : ShardedNode) (ckpt deltas : List (Nat × RV))
+    (s : Nat) :
+    (recoverNode false route nd ckpt deltas)[s]? =
+      (nd[s]?).map (fun sh => run sh (shardRecoveryOps route s ckpt deltas)) := by
+  unfold recoverNode
+  simp only [Bool.false_and, Bool.false_eq_true, if_false]
+  rw [fold_onShard route (fun p sh => sh.applyRemote p.1 p.2) s deltas,
+    fold_onShard route (fun p sh => sh.applyRecovered p.1 p.2) s ckpt]
+  cases nd[s]? with
+  | none => rfl
+  | some sh =>
+    simp only [Option.map_some, shardRecoveryOps, run_append, run_map_recovered, run_map_remote]
+
+/-- **C08 at node level (start-up recovery dominates)**: after
+    `ReplicatedShardedState::apply_recovered_state(checkpoint, deltas)` on any node, for EVERY
+    recovered value routed to shard `s` — live values, tombstones, hashes alike — every write that
+    shard acknowledges afterwards (after any further history `post`) is stamped strictly above
+    every stamp of that value. -/
+theorem node_recovery_dominates (route : Nat → Nat) (nd : ShardedNode)
+    (ckpt deltas : List (Nat × RV)) (hdom : ∀ p ∈ ckpt ++ deltas, p.2.Dominated)
+    (s : Nat) (sh' : Shard) (hs : (recoverNode false route nd ckpt deltas)[s]? = some sh')
+    (p : Nat × RV) (hp : p ∈ ckpt ++ deltas) (hr : route p.1 = s)
+    (post : List Op) (w : Op) (d : RV)
+    (he : effective (run sh' post) w = true) (hd : (step (run sh' post) w).2 = some d) :
+    ∀ t ∈ p.2.allStamps, t.lt d.ts = true := by
+  rw [recoverNode_shard] at hs
+  cases hsh : nd[s]? with
+  | none => rw [hsh] at hs; cases hs
+  | some sh =>
+    rw [hsh] at hs
+    simp only [Option.map_some, Option.some.injEq] at hs
+    subst hs
+    -- the message of `p` occurs among the recovery messages of shard `s`
+    have hmem : (Op.recovered p.1 p.2 ∈ shardRecoveryOps route s ckpt deltas) ∨
+        (Op.remote p.1 p.2 ∈ shardRecoveryOps route s ckpt deltas) := by
+      rcases List.mem_append.mp hp with hc | hdl
+      · left
+        exact List.mem_append_left _ (List.mem_map.mpr ⟨p, List.mem_filter.mpr ⟨hc, by simp [hr]⟩, rfl⟩)
+      · right
+        exact List.mem_append_right _ (List.mem_map.mpr ⟨p, List.mem_filter.mpr ⟨hdl, by simp [hr]⟩, rfl⟩)
+    have hok : ∀ x ∈ shardRecoveryOps route s ckpt deltas, OpOk x := by
+      intro x hx
+      rcases List.mem_append.mp hx with hx | hx
+      · obtain ⟨q, hq, rfl⟩ := List.mem_map.mp hx
+        exact hdom q (List.mem_append_left _ (List.mem_filter.mp hq).1)
+      · obtain ⟨q, hq, rfl⟩ := List.mem_map.mp hx
+        exact hdom q (List.mem_append_right _ (List.mem_filter.mp hq).1)
+    have key : ∀ o, o ∈ shardRecoveryOps route s ckpt deltas →
+        (o = .remote p.1 p.2 ∨ o = .recovered p.1 p.2) → ∀ t ∈ p.2.allStamps, t.lt d.ts = true := by
+      intro o ho hoo
+      obtain ⟨pre, suf, hsplit⟩ := List.append_of_mem ho
+      have hv : p.2.Dominated := hdom p hp
+      have hcov := observe_covers (run sh pre) p.1 p.2 o hv hoo
+      obtain ⟨d', hd', _, hlt⟩ := issued_stamp_is_new_clock _ w he
+      rw [hd] at hd'; cases hd'
+      intro t ht
+      apply Stamp.lt_of_time_lt
+      have h1 := hcov t ht
+      have h2 : (step (run sh pre) o).1.clock.time ≤
+          (run (run sh (shardRecoveryOps route s ckpt deltas)) post).clock.time := by
+        rw [hsplit, run_append]
+        show (step (run sh pre) o).1.clock.time ≤ (run (run (run sh pre) (o :: suf)) post).clock.time
+        have : run (run sh pre) (o :: suf) = run (step (run sh pre) o).1 suf := rfl
+        rw [this]
+        exact Nat.le_trans (run_clock_monotone _ suf) (run_clock_monotone _ post)
+      omega
+    rcases hmem with hm | hm
+    · exact key _ hm (Or.inr rfl)
+    · exact key _ hm (Or.inl rfl)
+
+/-- … hence such a write wins the merge on a peer that holds the recovered value -/
+theorem node_recovery_write_wins (route : Nat → Nat) (nd : ShardedNode)
+    (ckpt deltas : List (Nat × RV)) (hdom : ∀ p ∈ ckpt ++ deltas, p.2.Dominated)
+    (s : Nat) (sh' : Shard) (hs : (recoverNode false route nd ckpt deltas)[s]? = some sh')
+    (p : Nat × RV) (hp : p ∈ ckpt ++ deltas) (hr : route p.1 = s)
+    (k : Nat) (v : Bytes) (e : Option Nat) :
+    (RV.merge p.2 (recordWrite sh' k v e).2).crdt = (recordWrite sh' k v e).2.crdt ∧
+    (RV.merge (recordWrite sh' k v e).2 p.2).crdt = (recordWrite sh' k v e).2.crdt := by
+  have hgt := node_recovery_dominates route nd ckpt deltas hdom s sh' hs p hp hr []
+    (.write k v e) (recordWrite sh' k v e).2 rfl rfl
+  have := lww_write_supersedes p.2 (recordWrite sh' k v e).2 (Lww.set v sh'.clock.tick) rfl rfl hgt
+  exact ⟨this.1, this.2.1⟩
+
+/-- the variant that skips tombstones in the checkpoint loop ("deleted keys have nothing to
+    restore"): SET k; SET k; DEL k (tombstone @3); checkpoint; restart; recover; SET k v3 is
+    acknowledged with stamp (1, r) < (3, r), and a peer that holds the tombstone drops it -/
+theorem node_recovery_skip_tombstones_counterexample :
+    let tomb : RV := { crdt := .lww (Lww.delete ⟨3, 1⟩), vc := none, expiry := none, ts := ⟨3, 1⟩, rf := none }
+    let nd := recoverNode true (fun k => k % 2) (ShardedNode.init 1 false 2) [(6, tomb)] []
+    ∃ sh, nd[0]? = some sh ∧
+      (recordWrite sh 6 [118] none).2.ts.lt tomb.ts = true ∧
+      (RV.merge tomb (recordWrite sh 6 [118] none).2).get = none := by
+  decide
+
+/-- non-vacuity: a checkpoint with a live value, a tombstone and a hash spread over two shards,
+    plus a delta; both shards' clocks end above everything recovered for them -/
+example :
+    let tomb : RV := { crdt := .lww (Lww.delete ⟨3, 1⟩), vc := none, expiry := none, ts := ⟨3, 1⟩, rf := none }
+    let ckpt : List (Nat × RV) := [(6, tomb), (7, RV.withValue [1] ⟨9, 1⟩),
+      (8, { RV.new 1 with crdt := .hash [(1, Lww.delete ⟨5, 1⟩)], ts := ⟨5, 1⟩ })]
+    let deltas : List (Nat × RV) := [(6, RV.withValue [2] ⟨4, 2⟩)]
+    let nd := recoverNode false (fun k => k % 2) (ShardedNode.init 1 false 2) ckpt deltas
+    (∀ p ∈ ckpt ++ deltas, p.2.Dominated) ∧
+      (nd[0]?).map (·.clock.time) = some 7 ∧ (nd[1]?).map (·.clock.time) = some 10 ∧
+      ((nd[0]?).map (fun sh => (recordWrite sh 6 [118] none).2.ts.time)) = some 8 := by
   decide
 
 end C08
